@@ -319,6 +319,8 @@ def run(pm, ctx):
     from ..conddrift import run_decisions
     from ..ownership import OWN
     run_decisions(pm, ctx, 'C14-RD', OWN['C14'])
+    from .. import exprdrift
+    exprdrift.run(pm, ctx, 'C14-RE', OWN['C14'])
 
 
 def _parents_until(node, stop):
